@@ -52,12 +52,12 @@ SPEC = {
                   "the scratch copy, the harness. Modelled not verified: in the word protocol the counter is pre-registered (the lock-free "
                   "registration list has its own model, theorems and lock-step suite), critical sections under file.mu are one step, the file-level protocol "
                   "inside lookup (C04), timers, the self-triggered extension inside a lookup. 'no fault' is refuted "
-                  "(known finding use-after-unmap) and only characterised; bounded-steps/lock-freedom is not proved.",
+                  "(known finding use-after-unmap) and characterised exactly (C03_no_entry_through_closed_mapping); 'waits forever' is proved as obstruction freedom (C03_no_call_waits: a call running alone returns within a bounded number of its own steps from every reachable state); starvation under an adversarial scheduler that keeps making other goroutines succeed is not excluded (lock-free, not wait-free).",
     "assumptions": [
         "sequentially consistent atomics (sync/atomic); fewer than 2^30-1 goroutines inside Add at once",
         "file.lookup succeeds when a file is mapped (lookup failures are C05's domain)",
         "the counter is registered before the concurrent phase; critical sections under file.mu are atomic steps",
     ],
     "trusted_base": [],
-    "own_objects": ["theories/Props/C03.vo", "theories/Proofs/CounterThms.vo", "theories/Proofs/CounterInv.vo", "theories/Proofs/CounterWord.vo"],
+    "own_objects": ["theories/Props/C03.vo", "theories/Proofs/CounterThms.vo", "theories/Proofs/CounterInv.vo", "theories/Proofs/CounterWord.vo", "theories/Proofs/CounterFault.vo", "theories/Proofs/CounterProgress.vo", "theories/Proofs/RegisterFacts.vo", "theories/Proofs/GoFnsCounter.vo"],
 }
